@@ -5,6 +5,7 @@ pub mod gen;
 pub mod ir;
 pub mod model;
 pub mod payload;
+pub mod pretty;
 pub mod world;
 
 /// Replace the panic hook with a silent one (library panics are caught and judged by the oracles).
